@@ -544,6 +544,73 @@ func (t *Transaction) isValid() error {
 	return nil
 }
 
+// CheckLimits checks that the transaction fits the structural limits of its
+// binary format. Decoders apply these limits while reading, so this check is
+// needed for transactions that were constructed rather than decoded: the ones
+// that don't pass it can't be decoded by anyone.
+func (t *Transaction) CheckLimits() error {
+	if len(t.Script) > MaxScriptLength {
+		return fmt.Errorf("script is too big: %d bytes", len(t.Script))
+	}
+	if len(t.Signers) > MaxAttributes {
+		return fmt.Errorf("too many signers: %d, max is %d", len(t.Signers), MaxAttributes)
+	}
+	if len(t.Attributes) > MaxAttributes-len(t.Signers) {
+		return fmt.Errorf("too many attributes: %d, max is %d", len(t.Attributes), MaxAttributes-len(t.Signers))
+	}
+	if len(t.Scripts) > MaxAttributes {
+		return fmt.Errorf("too many witnesses: %d, max is %d", len(t.Scripts), MaxAttributes)
+	}
+	for i := range t.Signers {
+		s := &t.Signers[i]
+		if len(s.AllowedContracts) > maxSubitems || len(s.AllowedGroups) > maxSubitems || len(s.Rules) > maxSubitems {
+			return fmt.Errorf("signer %d: too many allowed contracts, groups or rules", i)
+		}
+		for j := range s.Rules {
+			if !conditionFitsLimits(s.Rules[j].Condition, MaxConditionNesting) {
+				return fmt.Errorf("signer %d: rule %d: invalid condition nesting or size", i, j)
+			}
+		}
+	}
+	for i := range t.Scripts {
+		if len(t.Scripts[i].InvocationScript) > MaxInvocationScript {
+			return fmt.Errorf("witness %d: invocation script is too big: %d bytes", i, len(t.Scripts[i].InvocationScript))
+		}
+		if len(t.Scripts[i].VerificationScript) > MaxVerificationScript {
+			return fmt.Errorf("witness %d: verification script is too big: %d bytes", i, len(t.Scripts[i].VerificationScript))
+		}
+	}
+	return nil
+}
+
+// conditionFitsLimits tells whether the condition can be decoded with the
+// given nesting depth allowed.
+func conditionFitsLimits(c WitnessCondition, maxDepth int) bool {
+	if c == nil || maxDepth <= 0 {
+		return false
+	}
+	var sub []WitnessCondition
+	switch v := c.(type) {
+	case *ConditionNot:
+		return conditionFitsLimits(v.Condition, maxDepth-1)
+	case *ConditionAnd:
+		sub = *v
+	case *ConditionOr:
+		sub = *v
+	default:
+		return true
+	}
+	if len(sub) == 0 || len(sub) > maxSubitems {
+		return false
+	}
+	for i := range sub {
+		if !conditionFitsLimits(sub[i], maxDepth-1) {
+			return false
+		}
+	}
+	return true
+}
+
 // HasSigner returns true in case if hash is present in the list of signers.
 func (t *Transaction) HasSigner(hash util.Uint160) bool {
 	for _, h := range t.Signers {
